@@ -76,13 +76,7 @@ func TestVerifC06Monc(t *testing.T) {
 		verifh.Run(mt.T, secs, func(cfg verifh.Cfg) (func(op []string) string, func()) {
 			cleaner := cache.VerifC06SwapCleaner()
 			env, conf := cache.VerifC06NewEnv(cfg.Int("nodes", 1), cfg.Str("type", "node"), cfg.Str("place", "-"))
-			var opts []cache.Option
-			if e := cfg.Int("exp", 0); e != 0 {
-				opts = append(opts, cache.WithExpiry(time.Duration(e)*time.Millisecond))
-			}
-			if e := cfg.Int("nf", 0); e != 0 {
-				opts = append(opts, cache.WithNotFoundExpiry(time.Duration(e)*time.Millisecond))
-			}
+			opts := cache.VerifC06Options(cfg.Str("exp", "-"), cfg.Str("nf", "-"))
 			m := MustNewModel(mt.Name(), mt.DB.Name(), mt.Coll.Name(), conf, opts...)
 			env.Attach(m.cache)
 			rows := map[int]c06Doc{}
@@ -112,6 +106,10 @@ func TestVerifC06Monc(t *testing.T) {
 					var v c06Doc
 					err := m.FindOne(ctx, env.Key(op[1]), &v, bson.D{{Key: "_id", Value: pk}})
 					res = c06Err(err)
+					// the cache was built with mongo.ErrNoDocuments as its errNotFound
+					if m.cache.IsNotFound(err) != (res == "notfound") {
+						res = "err:IsNotFound-disagrees-with-" + res
+					}
 					if err == nil {
 						res = fmt.Sprintf("val:r:%d:%d:%d", v.Id, v.V, v.A)
 					}
@@ -315,16 +313,13 @@ func c06MoncDelMask(r *verifh.Rng, nodes, nk int) string {
 func c06MoncGen(r *verifh.Rng) []verifh.Section {
 	secs := []verifh.Section{c06MoncScenario}
 	nsec := verifh.Scale(16, 120)
+	offE, offN := r.Intn(100), r.Intn(100)
 	for i := 0; i < nsec; i++ {
-		exp := r.Pick(0, 20000, 2500, 60000)
-		nf := r.Pick(0, 1000, 3000)
-		e, n := exp, nf
-		if e == 0 {
-			e = 7 * 24 * 3600 * 1000
-		}
-		if n == 0 {
-			n = 60000
-		}
+		// every class of option value in every run: the sections cycle through the value lists
+		exp := cache.VerifC06ExpValues[(i+offE)%len(cache.VerifC06ExpValues)]
+		nf := cache.VerifC06NfValues[(5*i+offN)%len(cache.VerifC06NfValues)]
+		e := int(cache.VerifC06Effective(exp, 7*24*3600*1000))
+		n := int(cache.VerifC06Effective(nf, 60000))
 		nk := r.Range(1, 3)
 		pkey := func() int { return r.Intn(nk) }
 		nodes := r.Pick(1, 2, 2, 3)
@@ -415,7 +410,7 @@ func c06MoncGen(r *verifh.Rng) []verifh.Section {
 				ops = append(ops, fmt.Sprintf("tick %d c=%s", r.Pick(1, 1, 2, 4, 5, 6, 60), string(b)))
 			}
 		}
-		secs = append(secs, verifh.Section{Cfg: fmt.Sprintf("exp=%d nf=%d stale=report nodes=%d type=%s place=%s", exp, nf, nodes, typ, place), Ops: ops})
+		secs = append(secs, verifh.Section{Cfg: fmt.Sprintf("exp=%s nf=%s stale=report nodes=%d type=%s place=%s", exp, nf, nodes, typ, place), Ops: ops})
 	}
 	return secs
 }
